@@ -364,7 +364,9 @@ func replay(work string, idx int, pl launchPlan, predicted map[bool]bool) (viol 
 		return fmt.Sprintf("the daemon called Done() and keeps running (pid %d), but Launch returned (%d, %q)", daemonPid, r.Pid, r.Err), "", obs
 	}
 	if !predicted[realOK] {
-		return fmt.Sprintf("the real processes (Launch ok=%v) produced an outcome the model does not have for this schedule class (model outcomes: ok=%v failure=%v)", realOK, predicted[true], predicted[false]), "", obs
+		// the processes satisfy every clause of the property here; that the model has no such
+		// outcome means the model does not describe this code - a weakness of the evidence
+		obs["model_mismatch"] = fmt.Sprintf("Launch ok=%v is an outcome the model does not have for this schedule class (model outcomes: ok=%v failure=%v)", realOK, predicted[true], predicted[false])
 	}
 	return "", "", obs
 }
@@ -497,16 +499,28 @@ func main() {
 	if *procBin == "" {
 		vcommon.Infra("need -proc")
 	}
-	work, err := os.MkdirTemp("", "c20")
+	work, err := vcommon.TempDir("", "c20")
 	if err != nil {
 		vcommon.Infra("%v", err)
 	}
 	defer os.RemoveAll(work)
-	nf, err := notifyFirst()
-	if err != nil {
-		vcommon.Infra("%v", err)
+	// The model has one parameter: is the launcher's SIGINT handler installed before the daemon
+	// is started? It is measured on the real processes (hold the launcher right after cmd.Start(),
+	// let the daemon call Done(): with the handler in place the launcher survives the signal);
+	// the syntactic reading of launch() is only a cross-check, so that moving the calls into
+	// helpers or using another API does not mislead the model.
+	_, cinfra, cobs := replay(work, 0, launchPlan{doneBeforePause: true}, map[bool]bool{true: true, false: true})
+	if cinfra != "" {
+		vcommon.Infra("calibration of the model parameter: %s (%v)", cinfra, cobs)
 	}
-	fmt.Printf("model parameter from the code: signal.Notify before cmd.Start = %v\n", nf)
+	nf, _ := cobs["real_ok"].(bool)
+	if snf, err := notifyFirst(); err != nil {
+		fmt.Printf("NOTE: the order of signal.Notify and cmd.Start could not be read from launch() (%v); measured: handler before start = %v\n", err, nf)
+	} else if snf != nf {
+		fmt.Printf("NOTE: launch() reads as handler-before-start=%v but the processes behave as %v; the model follows the processes\n", snf, nf)
+	}
+	fmt.Printf("model parameter (measured): SIGINT handler in place before cmd.Start = %v\n", nf)
+	var warnings []string
 	var viols []vcommon.Violation
 	var models []*modelRun
 	states, trans := 0, 0
@@ -641,6 +655,9 @@ func main() {
 					if len(samples) < 4 {
 						samples = append(samples, map[string]any{"class": j.name, "observed": obs})
 					}
+					if mm, ok := obs["model_mismatch"].(string); ok {
+						warnings = append(warnings, j.name+": "+mm)
+					}
 					if v != "" {
 						viols = append(viols, vcommon.Violation{Scenario: j.name, Fingerprint: j.name + "|" + firstWords(v, 6),
 							Message: "C20: " + v + fmt.Sprintf(" [%s; observed %v]", j.name, obs), Witness: map[string]any{"class": j.name, "plan": fmt.Sprintf("%+v", pl), "observed": obs}})
@@ -674,9 +691,13 @@ func main() {
 	}
 	for _, m := range models {
 		if m.Errors > 0 && len(viols) == 0 {
-			// the model says the code's ordering is wrong but the real processes did not show it: report the model finding
-			viols = append(viols, vcommon.Violation{Scenario: "model", Fingerprint: "model|" + m.Violation, Message: "C20: the model of the code's ordering violates the property (" + m.Violation + ") but no replayed class showed it", Witness: m})
+			// the model says this ordering is wrong but no class replayed on the processes showed it:
+			// the processes decide, the disagreement is recorded
+			warnings = append(warnings, "the model of the measured ordering violates the property ("+m.Violation+") but no replayed class showed it")
 		}
+	}
+	for _, w := range warnings {
+		fmt.Println("WARNING: model and processes disagree: " + w)
 	}
 	fmt.Printf("%d schedule classes replayed on real processes\n", replays)
 	os.RemoveAll(work) // os.Exit below skips deferred calls
@@ -685,8 +706,8 @@ func main() {
 		Coverage: map[string]any{
 			"states": states, "transitions": trans, "traces_validated_against_impl": replays,
 			"evaluations": replays, "distinct_nontrivial": len(jobs),
-			"rule":       "states/transitions: reachable states of the 3-process Promela model (1 and 2 concurrent Launch calls) explored exhaustively by spin, parameterised by the order of signal.Notify and cmd.Start read from the code; every maximal path (pan -e -c0, one trail each, replayed with spin -t) is projected onto {Done() before the first pause point / between the two / after the second}; every such class is replayed on real processes through the verif pause points and compared with the model's prediction",
-			"exhaustive": true, "model_runs": models, "notify_before_start": nf, "classes_replayed": len(jobs), "repetitions": reps, "samples": samples,
+			"rule":       "states/transitions: reachable states of the 3-process Promela model (1 and 2 concurrent Launch calls) explored exhaustively by spin, parameterised by whether the launcher's SIGINT handler is in place before cmd.Start (measured on the processes, cross-checked against the source); every maximal path (pan -e -c0, one trail each, replayed with spin -t) is projected onto {Done() before the first pause point / between the two / after the second}; every such class is replayed on real processes through the verif pause points and compared with the model's prediction",
+			"exhaustive": true, "model_conformance_warnings": warnings, "model_runs": models, "notify_before_start": nf, "classes_replayed": len(jobs), "repetitions": reps, "samples": samples,
 		},
 		Assumptions: []string{"inside a schedule class the kernel's scheduling is free; the classes are exactly the orders distinguishable at the model's granularity",
 			"no timeout is used as an oracle: a step that does not complete within 30 s is an INFRA-ERROR, and 'Launch has not returned' is asserted only while the harness itself holds the daemon before Done()"}})
